@@ -746,6 +746,9 @@ func (g *gen) calleeName(c *ssa.CallCommon) (full string, short string) {
 		// closures / anonymous functions
 		full = g.w.keyOf(fn)
 		short = fn.Name()
+		if i := strings.Index(short, "["); i > 0 && fn.Signature.Recv() != nil {
+			short = short[:i]
+		}
 		return
 	}
 	return "dynamic", "dynamic"
@@ -850,6 +853,10 @@ func (g *gen) applyCall(val ssa.Value, c *ssa.CallCommon, full, short string, or
 	for _, a := range args {
 		argT = append(argT, g.operand(a))
 	}
+	if g.callArgsRec == nil {
+		g.callArgsRec = map[string][]T{}
+	}
+	g.callArgsRec[fmt.Sprintf("%s#%d", short, ord)] = argT
 	// in-body assertions anchored before this call
 	g.anchoredAsserts(full, short, ord, false, nil, argT, pos)
 
